@@ -64,9 +64,21 @@ func genItems(t *rapid.T, maxItems, big int) [][]byte {
 func TestC19_ReadSegmentation(t *testing.T) {
 	rec := evid.For("C19")
 	rec.SetRule(c19Rule)
-	rec.Assume("declared lengths between 1 MiB and the 1 GiB limit are not generated (each would allocate that much); the limit is exercised with headers just above it and far above it")
+	rec.Assume("declared lengths above ~1 MiB (one case in thirty has an item just above 1 MiB followed by small ones) and up to the 1 GiB limit are not generated (each would allocate that much); the limit is exercised with headers just above it and far above it")
 	vt.Check(t, 1500, func(t *rapid.T) {
-		items := genItems(t, 6, 65536)
+		big := 65536
+		if rapid.IntRange(0, 29).Draw(t, "huge") == 0 {
+			big = 1<<20 + rapid.IntRange(1, 5000).Draw(t, "hugeExtra") // above 1 MiB: the receive buffer grows well past its usual sizes
+		}
+		items := genItems(t, 6, big)
+		if big > 1<<20 {
+			// make sure one item really is that large and that something follows it in the stream
+			items[0] = make([]byte, big)
+			for j := range items[0] {
+				items[0][j] = byte(j*29) + byte(j>>7)
+			}
+			items = append(items, []byte("follower-1"), []byte("follower-2"))
+		}
 		wire := wireOf(items)
 		// cuts
 		set := map[int]bool{}
